@@ -8,6 +8,10 @@ Open Scope N_scope.
 
 Definition res_world {A} (r : res A) : world := match r with ROk _ w => w | RFail _ w => w end.
 
+Ltac fr := intros; first [reflexivity | unfold notify_refresh; match goal with |- context [match ?x with _ => _ end] => destruct x end; reflexivity
+  | unfold notify_remove_with; reflexivity
+  | unfold create_arch; repeat match goal with |- context [match ?x with _ => _ end] => destruct x end; reflexivity].
+
 Ltac break_match :=
   match goal with
   | |- context [match ?x with _ => _ end] => destruct x eqn:?
@@ -30,24 +34,25 @@ Context {T : Type} (pi : world -> T).
 Hypothesis r_set_ents : forall w x, pi (set_ents w x) = pi w.
 Hypothesis r_set_res : forall w a b, pi (set_res w a b) = pi w.
 Hypothesis r_set_comps : forall w a b, pi (set_comps w a b) = pi w.
-Hypothesis r_set_hs : forall w x, pi (set_hs w x) = pi w.
+(* the handler registry is only touched by the refresh / removal notifications and by the registration
+   of existing handlers with a new archetype; these three are hypotheses so that observations of the
+   registry that they do keep (Listen.v) can be framed too *)
+Hypothesis r_notify_refresh : forall w ai, pi (notify_refresh w ai) = pi w.
+Hypothesis r_notify_remove_with : forall w ai a, pi (notify_remove_with w ai a) = pi w.
+Hypothesis r_create_arch : forall w cs i r, pi (snd (create_arch w cs i r)) = pi w.
 Hypothesis r_set_archs : forall w x, pi (set_archs w x) = pi w.
 Hypothesis r_set_aidx : forall w a b, pi (set_aidx w a b) = pi w.
 Hypothesis r_set_drops : forall w x, pi (set_drops w x) = pi w.
 Hypothesis r_set_notes : forall w x, pi (set_notes w x) = pi w.
 Hypothesis r_set_h : forall w x, pi (set_h w x) = pi w.
-Hint Rewrite r_set_ents r_set_res r_set_comps r_set_hs r_set_archs
+Hint Rewrite r_set_ents r_set_res r_set_comps r_set_archs
   r_set_aidx r_set_drops r_set_notes r_set_h : frame.
 Ltac rs := autorewrite with frame; try reflexivity.
 
 Lemma r_log_drop w c s : pi (log_drop w c s) = pi w. Proof. apply r_set_drops. Qed.
 Lemma r_drop_cval w t v : pi (drop_cval w t v) = pi w. Proof. unfold drop_cval. break_match; [apply r_log_drop|reflexivity]. Qed.
-Lemma r_notify_refresh w ai : pi (notify_refresh w ai) = pi w. Proof. unfold notify_refresh. break_match; rs. Qed.
-Lemma r_notify_remove_with w ai a : pi (notify_remove_with w ai a) = pi w. Proof. apply r_set_hs. Qed.
 Lemma r_notify_remove w ai : pi (notify_remove w ai) = pi w. Proof. unfold notify_remove. break_match; [apply r_notify_remove_with|reflexivity]. Qed.
 Lemma r_upd_arch w ai f : pi (upd_arch w ai f) = pi w. Proof. unfold upd_arch. break_match; rs. Qed.
-Lemma r_create_arch w cs i r : pi (snd (create_arch w cs i r)) = pi w.
-Proof. unfold create_arch. repeat break_match. cbn [snd]. rs. Qed.
 Lemma r_traverse_insert w s c : pi (res_world (traverse_insert w s c)) = pi w.
 Proof.
   unfold traverse_insert. repeat break_match; cbn [res_world]; rewrite ?r_upd_arch; try reflexivity.
@@ -194,7 +199,7 @@ Variable beh : hinfo -> logent -> N -> script.
 Theorem flush_never_resets n q w tr s' oc :
   Loop.flush wst qitem (run_w beh) unwind_w n q (w, None) [] = Some (tr, s', oc) ->
   w_resets (fst s') = w_resets w.
-Proof. apply (flush_frame w_resets); reflexivity. Qed.
+Proof. apply (flush_frame w_resets); fr. Qed.
 
 Lemma aborted_has_failure n q s acc tr s' :
   Loop.flush wst qitem (run_w beh) unwind_w n q s acc = Some (tr, s', Aborted) -> snd s' <> None.
@@ -217,13 +222,13 @@ Definition registries (w : world) := (w_gev w, w_gby w, w_tev w, w_tby w, w_glis
 Theorem flush_keeps_registries n q w tr s' oc :
   Loop.flush wst qitem (run_w beh) unwind_w n q (w, None) [] = Some (tr, s', oc) ->
   registries (fst s') = registries w.
-Proof. apply (flush_frame registries); reflexivity. Qed.
+Proof. apply (flush_frame registries); fr. Qed.
 Lemma deliver_one_keeps_registries it w : registries (snd (fst (deliver_one beh it w))) = registries w.
-Proof. apply (r_deliver_one registries); reflexivity. Qed.
+Proof. apply (r_deliver_one registries); fr. Qed.
 Lemma spawn_all_keeps_registries w : registries (res_world (spawn_all w)) = registries w.
-Proof. apply (r_spawn_all registries); reflexivity. Qed.
+Proof. apply (r_spawn_all registries); fr. Qed.
 Lemma unwind_queue_keeps_registries q w : registries (unwind_queue q w) = registries w.
-Proof. apply (r_unwind_queue registries); reflexivity. Qed.
+Proof. apply (r_unwind_queue registries); fr. Qed.
 End Resets.
 
 (* ------------------------------------------------------------------ *)
@@ -341,3 +346,112 @@ Proof.
 Qed.
 End WithBeh.
 End Structure.
+
+(* the same with the handler registry and the per-archetype refresh / listener tables included:
+   handler bodies cannot change which handlers exist or who listens where (C08, C15) *)
+Definition ashapeL (e : sentry) : (list N * list (key * nat) * list (N * N) * list (N * N) * list key * list (N * hlist key)) + N :=
+  match e with SOcc a => inl (a_comps a, map rshape (a_rows a), a_ins a, a_rem a, a_refresh a, a_listeners a) | SVac v => inr v end.
+Definition structureL (w : world) :=
+  (w_hs w, w_horder w, w_hctr w, w_glists w, w_hby w, w_cby w, w_ents w, w_comps w, map ashapeL (sl_entries (w_archs w)), sl_next (w_archs w), w_aby w).
+
+Section StructureL.
+Notation pi := structureL.
+
+Lemma sl_set_res w a b : pi (set_res w a b) = pi w. Proof. reflexivity. Qed.
+Lemma sl_set_drops w x : pi (set_drops w x) = pi w. Proof. reflexivity. Qed.
+Lemma sl_set_h w x : pi (set_h w x) = pi w. Proof. reflexivity. Qed.
+Lemma sl_log_drop w c s : pi (log_drop w c s) = pi w. Proof. reflexivity. Qed.
+Lemma sl_drop_cval w t v : pi (drop_cval w t v) = pi w. Proof. unfold drop_cval. break_match; reflexivity. Qed.
+Lemma sl_ev_drop w t tag ev : pi (ev_drop w t tag ev) = pi w.
+Proof. unfold ev_drop. repeat break_match; rewrite ?sl_drop_cval; reflexivity. Qed.
+
+Lemma map_ashapeL_nset l : forall i a a',
+  nget l i = Some (SOcc a) -> ashapeL (SOcc a') = ashapeL (SOcc a) ->
+  map ashapeL (nset l i (SOcc a')) = map ashapeL l.
+Proof.
+  induction l as [|h t IH]; intros i a a' Hg Hc; cbn [nset map]; [reflexivity|].
+  cbn [nget] in Hg. destruct (i =? 0).
+  - inversion Hg; subst. cbn [map]. now rewrite Hc.
+  - cbn [map]. f_equal. eapply IH; eauto.
+Qed.
+
+
+Lemma sl_write_arch w q d ai r : pi (write_arch w q d ai r) = pi w.
+Proof.
+  unfold write_arch. destruct (slab_get (w_archs w) ai) as [a|] eqn:Ha; [|reflexivity].
+  destruct (arch_state (has_of a) q) as [st|]; [|reflexivity].
+  unfold structureL, slab_get in *. cbn. destruct (nget (sl_entries (w_archs w)) ai) as [[a0|]|] eqn:Hg; try discriminate.
+  inversion Ha; subst a0. f_equal. f_equal. f_equal.
+  eapply map_ashapeL_nset; [exact Hg|]. cbn [ashapeL a_comps a_ins a_rem a_rows a_refresh a_listeners set_rows]. f_equal. f_equal. f_equal. f_equal. f_equal. f_equal.
+  destruct r as [r|].
+  - destruct (nget (a_rows a) r) as [[e vals]|] eqn:Hr; [|reflexivity].
+    generalize (bump_vals (fun c => ctag_zst (comp_tag w c)) (a_comps a) (amuts st) d vals) (bump_vals_length (fun c => ctag_zst (comp_tag w c)) (a_comps a) (amuts st) d vals).
+    intros vals' Hlen. clear -Hr Hlen. revert r Hr. induction (a_rows a) as [|x t IH]; intros r Hr; cbn in *; [discriminate|].
+    destruct (r =? 0); [inversion Hr; subst; cbn; unfold rshape; cbn; now rewrite Hlen|]. cbn. f_equal. eapply IH; eauto.
+  - rewrite map_map. apply map_ext. intros [e vals]. unfold rshape. cbn [fst snd]. now rewrite bump_vals_length.
+Qed.
+
+Lemma sl_reserve w : pi (res_world (reserve w)) = pi w.
+Proof. unfold reserve. repeat break_match; reflexivity. Qed.
+Lemma sl_use_fuel w : pi (snd (use_fuel w)) = pi w. Proof. unfold use_fuel. break_match; reflexivity. Qed.
+Lemma sl_fresh_serial w : pi (snd (fresh_serial w)) = pi w. Proof. reflexivity. Qed.
+Lemma sl_new_cval w k : pi (snd (new_cval w k)) = pi w. Proof. unfold new_cval. break_match; reflexivity. Qed.
+Lemma sl_push_known w k : pi (push_known w k) = pi w. Proof. reflexivity. Qed.
+
+Lemma sl_run_actions acts : forall ps t fresh sent w, pi (snd (fst (run_actions acts ps t fresh sent w))) = pi w.
+Proof.
+  induction acts as [|a acts IH]; intros ps t fresh sent w; cbn [run_actions]; [reflexivity|].
+  pose proof (sl_use_fuel w) as Hf. destruct (use_fuel w) as [ok w0]. cbn [snd] in Hf.
+  destruct ok; cbn [negb]; [|apply IH].
+  destruct a; repeat (break_match; cbn [fst snd]); rewrite ?IH, ?sl_ev_drop, ?sl_push_known;
+    repeat match goal with
+    | H : fresh_serial ?x = (_, ?y) |- _ => let E := fresh in pose proof (sl_fresh_serial x) as E; rewrite H in E; cbn [snd] in E; clear H
+    | H : new_cval ?x ?k = (_, ?y) |- _ => let E := fresh in pose proof (sl_new_cval x k) as E; rewrite H in E; cbn [snd] in E; clear H
+    | H : reserve ?x = _ |- _ => let E := fresh in pose proof (sl_reserve x) as E; rewrite H in E; cbn [res_world] in E; clear H
+    end; try congruence.
+Qed.
+
+Section WithBeh.
+Variable beh : hinfo -> logent -> N -> script.
+
+Lemma sl_apply_writes w ps loc d : pi (apply_writes w ps loc d) = pi w.
+Proof.
+  unfold apply_writes. break_match; [reflexivity|]. apply (fold_left_pres pi). intros w' p.
+  destruct p; try reflexivity; [apply sl_write_arch|].
+  destruct k; try reflexivity. apply (fold_left_pres pi). intros; apply sl_write_arch.
+Qed.
+
+Lemma sl_run_handler w h it tag loc : pi (snd (run_handler beh w h it tag loc)) = pi w.
+Proof.
+  unfold run_handler. destruct (param_views w (h_params h) loc) as [f|[ritems views]]; [reflexivity|].
+  match goal with |- context [run_actions ?a ?b ?c ?d ?e ?x] =>
+    pose proof (sl_run_actions a b c d e x) as Hra; destruct (run_actions a b c d e x) as [[sent w3] fl] end.
+  cbn [fst snd] in Hra. rewrite sl_apply_writes in Hra. cbn in Hra.
+  repeat break_match; cbn [snd]; exact Hra.
+Qed.
+
+(* C09: all handlers of one delivery run on an unchanged structure: none of them can make the
+   built-in change (or any other structural change) happen early *)
+Theorem handlers_preserve_structureL hl : forall w it tag loc sent,
+  pi (fst (fst (fst (fst (run_handlers beh hl w it tag loc sent))))) = pi w.
+Proof.
+  induction hl as [|hk hl IH]; intros w it tag loc sent; cbn [run_handlers]; [reflexivity|].
+  destruct (sm_get hk (w_hs w)) as [h|]; [|reflexivity].
+  pose proof (sl_run_handler w h it tag loc) as Hh. destruct (run_handler beh w h it tag loc) as [r w1]. cbn [snd] in Hh.
+  repeat break_match; cbn [fst]; rewrite ?IH, ?sl_ev_drop; exact Hh.
+Qed.
+
+(* a consumed event has no built-in effect, and neither has an event whose target is dead *)
+Theorem consumed_event_has_no_effectL it w hl tag loc :
+  forall w1 ev sent, run_handlers beh hl w it tag loc [] = (w1, ev, sent, true, None) -> pi w1 = pi w.
+Proof. intros w1 ev sent H. pose proof (handlers_preserve_structureL hl w it tag loc []) as Hs. rewrite H in Hs. exact Hs. Qed.
+
+Theorem dead_target_has_no_effectL it w k info :
+  qi_targeted it = true -> get_by_index (w_tev w) (qi_idx it) = Some (k, info) -> sm_get (qi_target it) (w_ents w) = None ->
+  pi (snd (fst (deliver_one beh it w))) = pi w /\ fst (fst (deliver_one beh it w)) = [] /\ k_log (w_h (snd (fst (deliver_one beh it w)))) = k_log (w_h w).
+Proof.
+  intros Ht Hg Hn. unfold deliver_one. rewrite Ht, Hg, Hn. cbn [fst snd]. rewrite sl_ev_drop. split; [reflexivity|split; [reflexivity|]].
+  unfold ev_drop, drop_cval. repeat break_match; reflexivity.
+Qed.
+End WithBeh.
+End StructureL.
